@@ -52,7 +52,7 @@ var removeMod = map[string]godi.ModuleOption{
 	"IK0": godi.Remove[pool.IK0](), "IK1": godi.Remove[pool.IK1](), "IA": godi.Remove[pool.IA](),
 }
 
-func removeKeyedMod(t, key string) godi.ModuleOption {
+func removeKeyedMod(t string, key any) godi.ModuleOption {
 	switch t {
 	case "K0":
 		return godi.RemoveKeyed[*pool.K0](key)
@@ -89,6 +89,11 @@ type Op struct {
 	// remove / removeKeyed
 	Type string `json:"type,omitempty"`
 	Key  string `json:"key,omitempty"`
+	// KeyKind (removeKeyed only): "" = the string Key; "nil" = a nil key (addresses the unkeyed
+	// registration); "empty" = the empty string; "int" = the int 0; "struct" = a struct value.
+	// Only exact (type, key) matches are removed, so the last three never match anything: names
+	// are non-empty strings here, and Name("") registers without a key (nil), not under "".
+	KeyKind string `json:"key_kind,omitempty"`
 	// modules: the arguments of one AddModules call
 	Mods []*Node `json:"mods,omitempty"`
 }
@@ -99,6 +104,33 @@ type Node struct {
 	Name string  `json:"name,omitempty"`
 	Op   *Op     `json:"op,omitempty"`
 	Kids []*Node `json:"kids,omitempty"`
+}
+
+// keyValue is the key argument of a removeKeyed op.
+func (o *Op) keyValue() any {
+	switch o.KeyKind {
+	case "nil":
+		return nil
+	case "empty":
+		return ""
+	case "int":
+		return int(0)
+	case "struct":
+		return struct{}{}
+	}
+	return o.Key
+}
+
+// refKey says which identity of the reference a remove / removeKeyed op addresses: (key, true),
+// or (_, false) when the key value cannot match any registration.
+func (o *Op) refKey() (string, bool) {
+	switch o.KeyKind {
+	case "nil":
+		return "", true
+	case "empty", "int", "struct":
+		return "", false
+	}
+	return o.Key, true
 }
 
 func (o *Op) String() string {
@@ -122,6 +154,16 @@ func (o *Op) String() string {
 	case "remove":
 		return "Remove(" + o.Type + ")"
 	case "removeKeyed":
+		switch o.KeyKind {
+		case "nil":
+			return fmt.Sprintf("RemoveKeyed(%s,nil)", o.Type)
+		case "empty":
+			return fmt.Sprintf("RemoveKeyed(%s,\"\")", o.Type)
+		case "int":
+			return fmt.Sprintf("RemoveKeyed(%s,int(0))", o.Type)
+		case "struct":
+			return fmt.Sprintf("RemoveKeyed(%s,struct{}{})", o.Type)
+		}
 		return fmt.Sprintf("RemoveKeyed(%s,%q)", o.Type, o.Key)
 	case "build":
 		return "Build"
@@ -234,7 +276,7 @@ func (e *env) applyDirect(c godi.Collection, o *Op) error {
 		c.Remove(pool.T(o.Type))
 		return nil
 	case "removeKeyed":
-		c.RemoveKeyed(pool.T(o.Type), o.Key)
+		c.RemoveKeyed(pool.T(o.Type), o.keyValue())
 		return nil
 	case "fail":
 		return errLeaf
@@ -259,7 +301,7 @@ func (e *env) leafOption(o *Op) godi.ModuleOption {
 	case "remove":
 		return removeMod[o.Type]
 	case "removeKeyed":
-		return removeKeyedMod(o.Type, o.Key)
+		return removeKeyedMod(o.Type, o.keyValue())
 	case "fail":
 		return failingEntry
 	}
